@@ -28,7 +28,7 @@ def cell(s, n=220):
 out = []
 out.append("# Independently seeded property-breaking changes\n")
 out.append("Each directory `C<property>-<k>/` holds `patch.diff` (applies to `/repo` HEAD with `git apply`), `demo.rs` (an integration test that fails with the change and passes without it; place it at `tests/seed_demo.rs`) and `meta.json`.")
-out.append("The changes were written by sub-agents that saw only the property text and a scratch worktree; each was re-confirmed with `seeded/evaluate.py` (demo passes on HEAD, patch applies, demo fails, the whole repository suite still passes). None of them is ever committed to `/repo`. k = 1,2: round 1; 3,4: round 2; 5,6: round 3 (asked to avoid the obvious candidates and to look for interactions); 7,8: round 4 (told what the tool enumerates and asked to place the trigger outside it); 9,10: round 5 (neutral prompt again, after all the strengthening); 11,12: round 6 (neutral); 13,14: round 7 (adversarial again: told about the short-input spaces, the all-character passes and the long periodic inputs, asked for numeric relations between option values, combinations of two unusual features, medium-sized non-periodic inputs, rarely used entry points, state surviving between calls); 15,16: round 8 (neutral, but given the whole property record — why the tests cannot settle it, the anchored mechanisms — and asked to aim at those mechanisms); 17,18: round 9 (property text only; two changes of different kinds among: cooperating sites, multi-step sequence, unusual input or option combination, particular position); 19,20: round 10 (property text only; A needs a combination of two ingredients, B depends on position, count or size).")
+out.append("The changes were written by sub-agents that saw only the property text and a scratch worktree; each was re-confirmed with `seeded/evaluate.py` (demo passes on HEAD, patch applies, demo fails, the whole repository suite still passes). None of them is ever committed to `/repo`. k = 1,2: round 1; 3,4: round 2; 5,6: round 3 (asked to avoid the obvious candidates and to look for interactions); 7,8: round 4 (told what the tool enumerates and asked to place the trigger outside it); 9,10: round 5 (neutral prompt again, after all the strengthening); 11,12: round 6 (neutral); 13,14: round 7 (adversarial again: told about the short-input spaces, the all-character passes and the long periodic inputs, asked for numeric relations between option values, combinations of two unusual features, medium-sized non-periodic inputs, rarely used entry points, state surviving between calls); 15,16: round 8 (neutral, but given the whole property record — why the tests cannot settle it, the anchored mechanisms — and asked to aim at those mechanisms); 17,18: round 9 (property text only; two changes of different kinds among: cooperating sites, multi-step sequence, unusual input or option combination, particular position); 19,20: round 10 (property text only; A needs a combination of two ingredients, B depends on position, count or size); 21,22: round 11 (10 properties; A a loop or data-flow restructuring that carries state wrongly, B a unit or boundary confusion).")
 out.append("To run the checks against one: `git -C /repo apply /verif/seeded/<id>/patch.diff; cd /verif && ./check.sh <ID> quick; git -C /repo checkout -- .`  (`seeded/redetect.py [ids]` does this in a scratch worktree and refreshes `detection` in meta.json.)\n")
 out.append("Held-out detection (checks as they were when the seeds arrived), own property's quick check: " + "; ".join(f"round {r}: {a}/{b}" for r, (a, b) in held.items()) + f". With the checks as committed: {now['quick']} of {len(rows)} by the own property's quick check, {now['thorough']} more by the thorough tier, {now['adapted']} (C08-6) only once upstream's cfg(fuzzing) seam is adapted to the signature the change alters (as delivered the harness does not build: exit 2, not a verdict), {now['missed']} not (C11-8 and C03-10, both argued to be outside the statement, see DESIGN.md §10.3).\n")
 out.append("`caught by` = the own property's check with the checks as committed; `when first evaluated` = the held-out result.\n")
